@@ -93,6 +93,45 @@ def apply_op(dec, rec, op):
     return out + enc_state(dec), (comp, halt, upd)
 
 
+# ---- two callers of one decider: every operation is atomic (the decider's lock) ------------------------------
+def raw_op(dec, op):
+    """the operation as a callable (what the engine thread / the distributed component's main thread does)"""
+    if op[0] == "local":
+        ev = PL.make_event(op[1], getattr(dec, "verif_textdata", False), getattr(dec, "verif_castraise", None))
+        return lambda: (dec.on_receiver_update(ev), dec.update())
+    n = op[1]
+    lists = [[PL.make_ser(r) for r in n[k]] for k in ("comp", "halt", "upd")]
+    return lambda: dec.on_distributed_update(*lists)
+
+
+def outcome(dec, rec, n0):
+    notes = [tuple(tuple(sorted(tuple(PL.enc_ser(r)) for r in lst)) for lst in c[:3]) + (bool(c[3]),) for c in rec.calls[n0:]]
+    return notes, enc_state(dec)
+
+
+def atomic_pair(cfg, prefix, op_a, op_b, k, wait=0.005):
+    """op_a with op_b started when op_a is at line k inside decider.py.  Returns (line reached, outcome, the two
+    serial outcomes [a;b, b;a], exceptions)."""
+    import interleave as IL
+
+    def fresh():
+        dec, rec = make_decider(cfg)
+        for op in prefix:
+            apply_op(dec, rec, op)
+        return dec, rec
+    serial = []
+    for order in ((op_a, op_b), (op_b, op_a)):
+        dec, rec = fresh()
+        n0 = len(rec.calls)
+        for op in order:
+            raw_op(dec, op)()
+        serial.append(outcome(dec, rec, n0))
+    dec, rec = fresh()
+    n0 = len(rec.calls)
+    r = IL.second_caller(raw_op(dec, op_a), raw_op(dec, op_b), ("decider.py",), k, wait=wait)
+    return r["reached"], outcome(dec, rec, n0), serial, [x for x in (r["a_exc"], r["b_exc"]) if x is not None]
+
+
 def remote_raise_failure(dec, k):
     return dict(signature="decider-raised-on-remote-update", step=k,
                 what="on_distributed_update raised on a well-formed note (operation %d): %s; the rest of the note is "
